@@ -5,3 +5,4 @@ import MoreExec.Props.C14
 import MoreExec.Props.C15
 import MoreExec.Props.C13
 import MoreExec.Props.C16
+import MoreExec.Props.C17
